@@ -34,6 +34,8 @@ def run_one(prop, tier, seed, shard, nshards):
     sys.dont_write_bytecode = True
     if REPO_SRC not in sys.path:
         sys.path.insert(0, REPO_SRC)
+    import logging
+    logging.disable(logging.CRITICAL)     # the library logs every dropped packet
     mod = importlib.import_module(f'nvf.{prop.lower()}')
     ctx = common.Ctx(prop, tier, seed, shard, nshards, level=getattr(mod, 'LEVEL', 'exploration'))
     mod.run(ctx)
